@@ -83,6 +83,9 @@ pub fn catalogue() -> Vec<Entry> {
         Vec<[[u8; 2]; 2]>, [[[u8; 2]; 2]; 2], VecDeque<[[u8; 2]; 3]>, Vec<[[u8; 1]; 1]>, Box<[[[u8; 3]; 2]]>,
         Vec<[[u16; 2]; 2]>, LinkedList<[[u8; 2]; 2]>, [[[u8; 1]; 3]; 2], Vec<[[[u8; 2]; 1]; 2]>, Vec<[i8; 3]>,
         Vec<[[u8; 0]; 2]>, Option<Vec<[[u8; 3]; 3]>>, BTreeSet<[[u8; 2]; 2]>, (Vec<[[u8; 2]; 2]>, u8),
+        // element types of one byte in memory whose wire form is longer (niche-optimised options and results)
+        Vec<Option<bool>>, Vec<Option<core::num::NonZeroU8>>, Vec<Result<bool, ()>>, Vec<Option<Option<bool>>>,
+        VecDeque<Option<bool>>, BTreeSet<Option<bool>>, (Vec<Option<bool>>, u16), Vec<Option<core::num::NonZeroI8>>,
     );
     #[cfg(feature = "io_std")]
     {
@@ -222,9 +225,9 @@ pub fn schema_pairs() -> Vec<PRun> {
     let mut v: Vec<PRun> = Vec::new();
     pairs!(v; [u8, i8, u16, String, Vec<u8>, Vec<u16>, [u8; 2], [u8; 3], (u8, u8), Option<u8>, Result<u8, u8>,
                BTreeMap<u8, u8>, HashMap<u8, u8>, BTreeSet<u8>, VecDeque<u8>, Box<[u8]>, usize, u64, (u8,), Vec<String>,
-               u128, i128, core::num::NonZeroU128, core::num::NonZeroI128, core::num::NonZeroU16, core::num::NonZeroI16];
+               u128, i128, core::num::NonZeroU128, core::num::NonZeroI128, core::num::NonZeroU16, core::num::NonZeroI16, (), [u8; 0]];
                [u8, i8, u16, String, Vec<u8>, Vec<u16>, [u8; 2], [u8; 3], (u8, u8), Option<u8>, Result<u8, u8>,
                BTreeMap<u8, u8>, HashMap<u8, u8>, BTreeSet<u8>, VecDeque<u8>, Box<[u8]>, usize, u64, (u8,), Vec<String>,
-               u128, i128, core::num::NonZeroU128, core::num::NonZeroI128, core::num::NonZeroU16, core::num::NonZeroI16]);
+               u128, i128, core::num::NonZeroU128, core::num::NonZeroI128, core::num::NonZeroU16, core::num::NonZeroI16, (), [u8; 0]]);
     v
 }
